@@ -31,33 +31,37 @@ def _reg(prop, module, cls, level, runs, batch, builds, components, rule, budget
 _reg("C01", "xsim.manager.props", "C01", "exploration", {"quick": 6400, "thorough": 1500000}, {"quick": 200, "thorough": 1000},
      ("pure", "compiled"), COMPONENTS_MANAGER,
      "one case = one seeded world + history of 5..40 (quick) / 5..120 (thorough) assignment ops run under one "
-     "(PYTHONHASHSEED, build, name salt); distinct = distinct case digest; non-trivial = at least one update that "
-     "triggered >= 1 task")
+     "(PYTHONHASHSEED, build, name salt); containers: dicts, objects, lists, lists of records, numpy-keyed lists/dicts; 35 % of the "
+     "histories pass through two frozen windows (plain assignments only); distinct = distinct case digest; non-trivial = at least "
+     "one update that triggered >= 1 task")
 _reg("C02", "xsim.manager.props", "C02", "exploration", {"quick": 9600, "thorough": 1500000}, {"quick": 200, "thorough": 1000},
      ("pure", "compiled"), COMPONENTS_MANAGER,
-     "one case = seeded world + history; every propagating op's container-write/action trace is attributed to tasks; "
+     "one case = seeded world + history (35 % with two frozen windows); every propagating op's container-write/action trace is attributed to tasks; "
      "distinct = distinct case digest; non-trivial = at least one update that triggered >= 1 task")
 _reg("C03", "xsim.manager.props", "C03", "exploration", {"quick": 6400, "thorough": 400000}, {"quick": 200, "thorough": 800},
      ("pure", "compiled"), COMPONENTS_MANAGER,
      "one case = seeded world + history biased to register/unregister/replace/load over nested targets; after every op the "
-     "subject is compared with a freshly built manager (index supports, verify, queries, reaction to the next op); "
+     "subject is compared with a freshly built manager (index supports, verify, queries, reaction to the next op); function tasks "
+     "with and without targets / dependencies; half of the histories contain assignments of an expression that cannot be evaluated; "
      "distinct = distinct case digest; non-trivial = at least one removal or replacement of a registered task happened")
 _reg("C18", "xsim.manager.props", "C18", "fault_enumeration", {"quick": 1600, "thorough": 60000}, {"quick": 50, "thorough": 250},
      ("pure", "compiled"), COMPONENTS_MANAGER,
      "one case = seeded history + up to 3 crash updates; for each, EVERY container write, EVERY container read and EVERY action call "
-     "of the fault-free trace (capped at 24 per kind, evenly spread) is failed once on a re-executed copy, optionally twice in a row, "
+     "of the fault-free trace (capped at 24 per kind, evenly spread) is failed once on a re-executed copy (13 exception classes in rotation), optionally twice in a row, "
      "then the assignment is repeated fault-free; distinct = distinct case digest; non-trivial = at least one fault was injected "
      "(the count of faulted executions is in probes.faulted_executions)")
 _reg("C17", "xsim.manager.props", "C17", "fault_enumeration", {"quick": 1280, "thorough": 40000}, {"quick": 40, "thorough": 200},
      ("pure", "compiled"), COMPONENTS_MANAGER,
      "one case = seeded history; the manager is frozen at EVERY position of it (each on a re-executed copy) and subjected to ~8 "
-     "generated API calls (assign expression/value, in-place op, register, unregister, load, copy_expr_from, refresh, verify, "
+     "generated API calls (assign expression/value, in-place op, register incl. an already registered task object, unregister, load, "
+     "copy_expr_from with and without bindings, refresh, verify, "
      "cleanup, clone); then unfrozen and the rest of the history is run; distinct = distinct case digest; non-trivial = at least "
      "one mutating call was made on a frozen manager (count in probes.mutating_calls_on_frozen)")
 _reg("C12", "xsim.manager.props", "C12", "exploration", {"quick": 16000, "thorough": 1000000}, {"quick": 250, "thorough": 1000},
      ("pure", "compiled"), COMPONENTS_MANAGER,
      "one case = seeded expression/linear-knob history with 1-3 pickle restarts at random positions, each followed by one of: "
-     "mirrored assignments on original and copy, assignments to the copy only, assignments to the original only; distinct = "
+     "mirrored assignments on original and copy, assignments to the copy only, assignments to the original only; 40 % numpy keys, "
+     "30 % with one of the manager's own default containers holding a reference cycle; distinct = "
      "distinct case digest; non-trivial = at least one pickle restart was executed")
 _reg("C11", "xsim.manager.props", "C11", "exploration", {"quick": 16000, "thorough": 1000000}, {"quick": 250, "thorough": 1000},
      ("pure", "compiled"), COMPONENTS_MANAGER,
@@ -67,12 +71,12 @@ _reg("C11", "xsim.manager.props", "C11", "exploration", {"quick": 16000, "thorou
      "distinct = distinct case digest; non-trivial = at least one restart was executed")
 _reg("C13", "xsim.manager.props", "C13", "exploration", {"quick": 9600, "thorough": 600000}, {"quick": 150, "thorough": 600},
      ("pure", "compiled"), COMPONENTS_MANAGER,
-     "one case = seeded acyclic expression history with 1-4 gen_fun calls at random positions (1-3 graph-leaf arguments, generated "
-     "values); the subject calls the generated function, a twin manager with the same history assigns through set_value; the "
+     "one case = seeded acyclic expression history with 1-5 gen_fun calls at random positions (1-3 graph-leaf arguments, 30 % plus an "
+     "entry of the function container, generated values, 20 % a last call with a value at the edge of the float range); the subject calls the generated function, a twin manager with the same history assigns through set_value; the "
      "mk_fun source is checked line by line; distinct = distinct case digest; non-trivial = at least one generated function was called")
 _reg("C20", "xsim.manager.props", "C20", "exploration", {"quick": 4800, "thorough": 60000}, {"quick": 150, "thorough": 500},
      ("pure", "compiled"), COMPONENTS_MANAGER,
-     "one case = one seeded program (history with fixed names + 0-2 assignments that make Python raise) executed in N fresh "
+     "one case = one seeded program (history with fixed names + 0-3 assignments that make Python raise, incl. an unhashable subscript) executed in N fresh "
      "interpreters: {compiled, pure} x hash seeds (quick 2x2, thorough 2x8); the per-op transcript (exception type, canonical "
      "contents, sorted definitions, dump() in its own order) must have the same digest in all of them; evaluations = program "
      "executions; distinct = distinct programs; non-trivial = the program had at least one update that triggered a task")
@@ -81,20 +85,21 @@ _reg("C07", "xsim.table.props", "C07", "exploration", {"quick": 64000, "thorough
      ("pure",), COMPONENTS_TABLE,
      "one case = 1-3 seeded tables (0..40 rows, index column over a 3-5 name alphabet with repetition) + a history of lookups "
      "(t[col,row], rows.get_index, t // row, get_index_unique) interleaved with mutations (cell by position/name/name::k/tuple, whole "
-     "column item/attr style, cells through slices / position lists / name spans, positions from the end, new/deleted columns, "
+     "column item/attr style, cells through slices / position lists / name spans, positions from the end, new/deleted columns, products and sums of tables, "
      "index column replaced via pop+assign), cache warm or cold, optional torn array writes, 15 % fixed-width string index columns, "
-     "names with case variants / regex metacharacters / separator characters; distinct = distinct case digest; non-trivial = the index column was mutated at least once")
+     "names with case variants / regex metacharacters / separator characters, 40 % index columns not called 'name'; distinct = distinct case digest; non-trivial = the index column was mutated at least once")
 _reg("C08", "xsim.table.props", "C08", "exploration", {"quick": 64000, "thorough": 3000000}, {"quick": 1000, "thorough": 4000},
      ("pure",), COMPONENTS_TABLE,
      "one case = 1-3 seeded tables + a history of rows[...] / rows.indices[...] / rows.mask[...] with every selector form (position, "
      "lists, masks, regex with ::count and shifts, name spans, value ranges open and closed), pairs for the composition law, on "
      "tables that are also mutated and derived, non-capturing/flag/named groups among the patterns, throw-away case-sensitive tables "
-     "using the same pattern texts in the same interpreter; each worker interpreter runs under its own PYTHONHASHSEED; distinct = distinct "
+     "using the same pattern texts in the same interpreter, 40 % index columns not called 'name' (optionally beside an ordinary 'name' column); each worker interpreter runs under its own PYTHONHASHSEED; distinct = distinct "
      "case digest; non-trivial = at least one selection was compared with the naive selector")
 _reg("C14", "xsim.table.props", "C14", "exploration", {"quick": 48000, "thorough": 3000000}, {"quick": 750, "thorough": 4000},
      ("pure",), COMPONENTS_TABLE,
      "one case = 1-3 seeded tables + a history of derivations (rows, cols incl. expression columns, +, *, concatenate, _copy, _t, "
-     "_select), calls of the checked constructor with consistent and inconsistent arguments, non-scalar extra entries, "
+     "_select), calls of the checked constructor with consistent and inconsistent arguments, non-scalar extra entries, scalar entries "
+     "promoted to columns, column names containing the index name, "
      "and column/cell assignments over a population of up to 7 live tables that may share arrays; after every op every live table "
      "is checked; distinct = distinct case digest; non-trivial = at least one derivation produced a table")
 _reg("C09", "xsim.optimizer.props", "C09", "fault_enumeration", {"quick": 2560, "thorough": 100000}, {"quick": 40, "thorough": 150},
@@ -107,7 +112,8 @@ _reg("C10", "xsim.optimizer.props", "C10", "exploration", {"quick": 32000, "thor
      ("pure",), COMPONENTS_OPT,
      "one case = one generated problem (solutions inside, outside and far from the limits; per-knob max_step; persistently and "
      "per-call disabled knobs/targets; unit and non-unit weights) + a history of step/solve/enable/disable/reload/tag calls, "
-     "optionally with 'failed' plant evaluations and a twin run whose disabled target returns unrelated values; distinct = "
+     "optionally with 'failed' plant evaluations and a twin run whose disabled target returns unrelated values; on linear plants a "
+     "second twin replays the history with finite-difference Jacobians in place of Broyden updates; distinct = "
      "distinct case digest; non-trivial = at least one step/solve call was monitored")
 _reg("C15", "xsim.optimizer.props", "C15", "exploration", {"quick": 32000, "thorough": 1500000}, {"quick": 500, "thorough": 2000},
      ("pure",), COMPONENTS_OPT,
